@@ -1,5 +1,5 @@
 (* C04 — concrete witnesses (vm_compute): refutations of the full-strength statements on the faithful
-   model (= known findings F3, F5, F41, F42) and non-vacuity examples for the positive theorems. *)
+   model (= open findings F3, F41; F5 and F42 became regression examples with kopf commit e6fe434) and non-vacuity examples for the positive theorems. *)
 From Coq Require Import ZArith NArith List String Bool Ascii.
 From KV Require Import Base.Json Base.Dicts Model.Keys Model.Storage Model.Diff Model.Essence Model.OwnWrites.
 Import ListNotations.
@@ -41,15 +41,18 @@ Example own_cycle_invisible_ex :
   end = true.
 Proof. vm_compute. reflexivity. Qed.
 
-(* ---- F5: another Kopf operator with prefix kopf.dev is never marked: its write is an essential change ---- *)
+(* ---- F5 (fixed by kopf commit e6fe434): another Kopf operator with prefix kopf.dev now gets its marker, its
+   writes are invisible (regression example; before the fix the two essences differed) ---- *)
 Definition w_other_ds := DAnn "kopf.dev" "last-handled-configuration" true [].
 Definition w_other_ps := PAnn "kopf.dev" true false "touch-dummy".
 
-Lemma other_operator_refuted :
-  exists body ops b', own_body_after w_dg w_other_ds w_other_ps body ops = Ok b' /\
-    res_jeqb (essence w_dg w_ds w_ps b' []) (essence w_dg w_ds w_ps body []) = false.
-Proof. exists w_body, [OwStore "create_fn" w_record], (match own_body_after w_dg w_other_ds w_other_ps w_body [OwStore "create_fn" w_record] with Ok b => b | _ => JNull end).
-  split; vm_compute; reflexivity. Qed.
+Example other_operator_kopf_dev_ex :
+  match own_body_after w_dg w_other_ds w_other_ps w_body [OwStore "create_fn" w_record; OwDiffbase (JObj [("spec", JObj [])]); OwTouch (JStr "t")] with
+  | Ok b' => res_jeqb (essence w_dg w_ds w_ps b' []) (essence w_dg w_ds w_ps w_body []) && negb (jeqb b' w_body)
+             && match resolve b' ["metadata"; "annotations"; "kopf.dev/kopf-managed"] with Some (JStr "yes") => true | _ => false end
+  | _ => false
+  end = true.
+Proof. vm_compute. reflexivity. Qed.
 
 (* ... while an operator with a markable prefix is invisible (its first write carries the marker) *)
 Example other_operator_marked_ex :
@@ -77,21 +80,27 @@ Proof. exists w41_ds, w41_ps, w41_body.
                   [OwDiffbase (match essence w_dg w41_ds w41_ps w41_body [] with Ok e => e | _ => JNull end)] with Ok b => b | _ => JNull end).
   repeat split; vm_compute; reflexivity. Qed.
 
-(* ---- F42: Multi diff-base storage, ReplicaSet of a Deployment, unmarkable prefix ---- *)
+(* ---- F42 (masked by the fix of F5): Multi diff-base storage, ReplicaSet of a Deployment, prefix kopf.dev.
+   MultiDiffBaseStorage still hands the essence (no `kind`) to its sub-storages, which then strip `<key>` instead
+   of `<key>-ofDRS`; but the prefix now always carries a marker (or is known), so the own annotation is dropped
+   with the marked prefix: the own write is invisible (regression example; before the fix it was not) ---- *)
 Definition w42_ds := DMulti [DAnn "kopf.dev" "last-handled-configuration" true []; DStatus ["status"; "kopf"; "last-handled-configuration"] []].
 Definition w42_body : json :=
   JObj [("kind", JStr "ReplicaSet");
         ("metadata", JObj [("name", JStr "rs1"); ("ownerReferences", JList [JObj [("kind", JStr "Deployment"); ("name", JStr "d1")]])]);
         ("spec", JObj [("replicas", JNum 2)])].
 
-Lemma own_writes_multi_drs_refuted :
-  exists e b', essence w_dg w42_ds w41_ps w42_body [] = Ok e /\ own_body_after w_dg w42_ds w41_ps w42_body [OwDiffbase e] = Ok b' /\
-    res_jeqb (essence w_dg w42_ds w41_ps b' []) (Ok e) = false.
-Proof.
-  exists (match essence w_dg w42_ds w41_ps w42_body [] with Ok e => e | _ => JNull end).
-  exists (match own_body_after w_dg w42_ds w41_ps w42_body
-                  [OwDiffbase (match essence w_dg w42_ds w41_ps w42_body [] with Ok e => e | _ => JNull end)] with Ok b => b | _ => JNull end).
-  repeat split; vm_compute; reflexivity. Qed.
+Example own_writes_multi_drs_ex :
+  match essence w_dg w42_ds w41_ps w42_body [] with
+  | Ok e =>
+      match own_body_after w_dg w42_ds w41_ps w42_body [OwDiffbase e] with
+      | Ok b' => res_jeqb (essence w_dg w42_ds w41_ps b' []) (Ok e)
+                 && match resolve b' ["metadata"; "annotations"; "kopf.dev/last-handled-configuration-ofDRS"] with Some _ => true | None => false end
+      | _ => false
+      end
+  | _ => false
+  end = true.
+Proof. vm_compute. reflexivity. Qed.
 
 (* ---- F3: the diff is empty although the values differ as JSON ---- *)
 Lemma diff_strict_refuted_null : diff (JObj [("x", JNull)]) (JObj []) = [] /\ jeqb (JObj [("x", JNull)]) (JObj []) = false.
